@@ -47,13 +47,19 @@ type c03Damage struct {
 type c03Case struct {
 	Cmds    []c03Cmd    `json:"cmds"`
 	Damages []c03Damage `json:"damages"`
+	// Reset: the log begins with the RESET record that a log compaction writes first (it carries no data; without
+	// a snapshot file beside the log it changes nothing)
+	Reset bool `json:"reset,omitempty"`
 }
 
 // c03Build writes the commands with the project's framing and returns the bytes and the frame extents.
-func c03Build(cmds []c03Cmd) ([]byte, [][2]int) {
+func c03Build(cmds []c03Cmd, reset ...bool) ([]byte, [][2]int) {
 	var buf bytes.Buffer
 	fw := persistence.NewFrameWriter(&buf)
 	var ext [][2]int
+	if len(reset) > 0 && reset[0] {
+		_ = fw.WriteFrame([]byte(persistence.FormatCommand("RESET")))
+	}
 	for _, c := range cmds {
 		start := buf.Len()
 		var payload string
@@ -161,7 +167,7 @@ func c03Intact(ext [][2]int, prov []int) []bool {
 }
 
 func c03Check(c c03Case) (msg string, intactAfterDamage bool) {
-	orig, ext := c03Build(c.Cmds)
+	orig, ext := c03Build(c.Cmds, c.Reset)
 	damaged, prov := c03Apply(orig, c.Damages)
 	intact := c03Intact(ext, prov)
 	firstDamaged := -1
@@ -217,63 +223,83 @@ func c03Check(c c03Case) (msg string, intactAfterDamage bool) {
 		}
 		return "", intactAfterDamage // refusing is allowed when the file does not begin with a valid frame marker
 	}
-	defer r.e.Close()
-	got := map[string][]byte{}
-	r.e.DB.IterateKV(func(p core.KVPair) { got[p.Key] = p.Value })
-	// per key oracle
-	byKey := map[string][]int{}
-	for i, cmd := range c.Cmds {
-		byKey[cmd.Key] = append(byKey[cmd.Key], i)
-	}
-	for k := range got {
-		if _, ever := byKey[k]; !ever {
-			return fmt.Sprintf("key %q appears after recovery but was never written (fabricated command)", k), intactAfterDamage
+	e := r.e
+	defer func() { e.Close() }()
+	verify := func(e *engine.Engine) string {
+		got := map[string][]byte{}
+		e.DB.IterateKV(func(p core.KVPair) { got[p.Key] = p.Value })
+		// per key oracle
+		byKey := map[string][]int{}
+		for i, cmd := range c.Cmds {
+			byKey[cmd.Key] = append(byKey[cmd.Key], i)
 		}
-	}
-	for k, idxs := range byKey {
-		lastIntact := -1
-		for _, i := range idxs {
-			if intact[i] {
-				lastIntact = i
+		for k := range got {
+			if _, ever := byKey[k]; !ever {
+				return fmt.Sprintf("key %q appears after recovery but was never written (fabricated command)", k)
 			}
 		}
-		v, present := got[k]
-		ok := false
-		for _, i := range idxs {
-			if i < lastIntact {
-				continue
-			}
-			cmd := c.Cmds[i]
-			if cmd.Del && !present {
-				ok = true
-			}
-			if !cmd.Del && present && bytes.Equal(v, cmd.Val) {
-				ok = true
-			}
-		}
-		if lastIntact < 0 {
-			// no command on this key is intact: every command may have been lost; the key is then absent -
-			// unless an earlier... there is no earlier state: the log is the whole history
-			if !present {
-				ok = true
-			}
-		}
-		if !ok {
-			var hist []string
+		for k, idxs := range byKey {
+			lastIntact := -1
 			for _, i := range idxs {
-				cmd := c.Cmds[i]
-				st := "damaged"
 				if intact[i] {
-					st = "intact"
-				}
-				if cmd.Del {
-					hist = append(hist, fmt.Sprintf("#%d DEL (%s)", i, st))
-				} else {
-					hist = append(hist, fmt.Sprintf("#%d SET %q (%s)", i, cmd.Val, st))
+					lastIntact = i
 				}
 			}
-			return fmt.Sprintf("key %q recovered as present=%v value=%q; its commands in the log: %v - the recovered value must be the effect of a command that is not followed by an intact command on the same key", k, present, v, hist), intactAfterDamage
+			v, present := got[k]
+			ok := false
+			for _, i := range idxs {
+				if i < lastIntact {
+					continue
+				}
+				cmd := c.Cmds[i]
+				if cmd.Del && !present {
+					ok = true
+				}
+				if !cmd.Del && present && bytes.Equal(v, cmd.Val) {
+					ok = true
+				}
+			}
+			if lastIntact < 0 {
+				// no command on this key is intact: every command may have been lost; the key is then absent -
+				// unless an earlier... there is no earlier state: the log is the whole history
+				if !present {
+					ok = true
+				}
+			}
+			if !ok {
+				var hist []string
+				for _, i := range idxs {
+					cmd := c.Cmds[i]
+					st := "damaged"
+					if intact[i] {
+						st = "intact"
+					}
+					if cmd.Del {
+						hist = append(hist, fmt.Sprintf("#%d DEL (%s)", i, st))
+					} else {
+						hist = append(hist, fmt.Sprintf("#%d SET %q (%s)", i, cmd.Val, st))
+					}
+				}
+				return fmt.Sprintf("key %q recovered as present=%v value=%q; its commands in the log: %v - the recovered value must be the effect of a command that is not followed by an intact command on the same key", k, present, v, hist)
+			}
 		}
+		return ""
+	}
+	if m := verify(e); m != "" {
+		return m, intactAfterDamage
+	}
+	// the repaired log is what the next start reads: the same rule holds for it (an intact command stays applied
+	// however often the engine is restarted)
+	if err := e.Close(); err != nil {
+		return "Close after recovery: " + err.Error(), intactAfterDamage
+	}
+	e2, err := engine.Open(engineOpts(data))
+	if err != nil {
+		return fmt.Sprintf("the second start on the repaired log failed: %v", err), intactAfterDamage
+	}
+	e = e2
+	if m := verify(e); m != "" {
+		return "second start on the repaired log: " + m, intactAfterDamage
 	}
 	return "", intactAfterDamage
 }
@@ -370,7 +396,7 @@ func c03GenDamage(t *rapid.T, fileLen int, ext [][2]int) c03Damage {
 
 func TestVerif_C03_damage(t *testing.T) {
 	col := verifkit.New("C03", "damage",
-		"rapid-generated logs of 3-40 SET/DEL commands over 10 keys (unique values; payloads include empty, 0xA5 runs and random bytes) x 1-3 damages (bit flip / set byte / overwrite range / delete range / insert garbage / truncate; 70% aimed at a header field - magic, opcode, length, checksum - of a chosen frame), recovered with engine.Open; oracle per key from the statement (value = effect of a command not followed by an intact command on that key; never-written keys absent), no panic, terminates, Open refuses only if byte 0 is not the frame marker; non-trivial = at least one intact frame lies after a damaged one")
+		"rapid-generated logs of 3-40 SET/DEL commands over 10 keys (unique values; payloads include empty, 0xA5 runs and random bytes; one log in three begins with the RESET record of a log compaction) x 1-3 damages (bit flip / set byte / overwrite range / delete range / insert garbage / truncate; 70% aimed at a header field - magic, opcode, length, checksum - of a chosen frame), recovered with engine.Open, checked, closed and started a second time on the repaired file; oracle per key from the statement (value = effect of a command not followed by an intact command on that key; never-written keys absent), no panic, terminates, Open refuses only if byte 0 is not the frame marker; non-trivial = at least one intact frame lies after a damaged one")
 	defer col.Finish()
 	if rp := verifkit.ReplayPath(); rp != "" {
 		if verifkit.ReplayPart(rp) != "damage" {
@@ -389,8 +415,8 @@ func TestVerif_C03_damage(t *testing.T) {
 	}
 	verifkit.RapidSetup(900, 60000)
 	rapid.Check(t, func(rt *rapid.T) {
-		c := c03Case{Cmds: c03GenCmds(rt)}
-		orig, ext := c03Build(c.Cmds)
+		c := c03Case{Cmds: c03GenCmds(rt), Reset: rapid.IntRange(0, 2).Draw(rt, "compacted-log") == 0}
+		orig, ext := c03Build(c.Cmds, c.Reset)
 		cur := len(orig)
 		for i := rapid.IntRange(1, 3).Draw(rt, "ndmg"); i > 0; i-- {
 			d := c03GenDamage(rt, cur, ext)
@@ -411,6 +437,9 @@ func TestVerif_C03_damage(t *testing.T) {
 		var labels []string
 		for _, d := range c.Damages {
 			labels = append(labels, "dmg:"+d.Kind)
+		}
+		if c.Reset {
+			labels = append(labels, "log-begins-with-the-RESET-record-of-a-compaction")
 		}
 		col.Case(c, nt, labels...)
 		if msg != "" {
@@ -446,11 +475,15 @@ func TestVerif_C03_damageenum(t *testing.T) {
 		if len(cmds) < 4 {
 			cmds = append(cmds, c03Cmd{Key: "k0", Val: []byte("x#a")}, c03Cmd{Key: "k1", Val: []byte("y#b")}, c03Cmd{Key: "k0", Val: []byte("z#c")})
 		}
-		_, ext := c03Build(cmds)
+		reset := rapid.IntRange(0, 2).Draw(rt, "compacted-log") == 0
+		_, ext := c03Build(cmds, reset)
 		f := rapid.IntRange(0, len(ext)-3).Draw(rt, "frame")
+		if reset && rapid.Bool().Draw(rt, "first-data-frame") {
+			f = 0 // the frame right behind the RESET record
+		}
 		for p := ext[f][0]; p < ext[f][1]; p++ {
 			for _, d := range []c03Damage{{Kind: "flip", Pos: p, Bit: 0}, {Kind: "flip", Pos: p, Bit: 7}, {Kind: "set", Pos: p, Fill: []byte{0}}, {Kind: "set", Pos: p, Fill: []byte{0xFF}}, {Kind: "set", Pos: p, Fill: []byte{0xA5}}} {
-				c := c03Case{Cmds: cmds, Damages: []c03Damage{d}}
+				c := c03Case{Cmds: cmds, Damages: []c03Damage{d}, Reset: reset}
 				variants++
 				field := "payload"
 				switch off := p - ext[f][0]; {
@@ -464,7 +497,11 @@ func TestVerif_C03_damageenum(t *testing.T) {
 					field = "checksum"
 				}
 				msg, _ := c03Check(c)
-				col.Case(c, true, "field:"+field)
+				if reset {
+					col.Case(c, true, "field:"+field, "log-begins-with-the-RESET-record-of-a-compaction")
+				} else {
+					col.Case(c, true, "field:"+field)
+				}
 				if msg != "" {
 					col.Fail(c, "%s", msg)
 					rt.Fatalf("%s", msg)
